@@ -58,6 +58,8 @@ type Args struct {
 	Val     string          `json:"val"`
 	NewCas  *CasRef         `json:"newcas"`
 	Cb      string          `json:"cb"`
+	Big     bool            `json:"big"`  // the body or an xattr value exceeds the document size limit
+	Badx    bool            `json:"badx"` // an xattr value is not JSON
 }
 
 // Res is the abstracted result (uniform shape).
@@ -229,6 +231,17 @@ func (x *Ctx) Exec(c *rosmar.Collection, bucket *rosmar.Bucket, op *GenOp) (a Ar
 	a = Args{Key: op.Key, Exp: op.Exp, Pres: op.Pres, Casc: op.Casc, Body: AbstractBody(body), HasBody: body != nil,
 		Json: op.Json, Opt: op.Opt, Sets: fullSets(op.Sets), Dels: map[string]bool{}, Db: op.Db, Amt: op.Amt, Def: op.Def,
 		Path: op.Path, Val: op.Val, Cb: op.Cb}
+	for _, xa := range op.Sets {
+		if xa.T == "xbig" {
+			a.Big = true
+		}
+		if xa.T == "xbad" {
+			a.Badx = true
+		}
+	}
+	if op.Body == "JB" {
+		a.Big = true
+	}
 	if a.Exp == "" {
 		a.Exp = "0"
 	}
